@@ -208,7 +208,7 @@ def units(tier):
     return u
 
 
-BUDGET = {"quick": 240, "thorough": 2400}
+BUDGET = {"quick": 240, "thorough": 1200}
 UNIT_PATH_CAP = {"quick": 12000, "thorough": 400000}
 BOUNDS = {
     "quick": "14 reader shapes; every byte string of length <= 4 (<= 5 for int32/string readers); valid encodings (values one byte wide, "
